@@ -18,6 +18,7 @@ func main() {
 	workers := flag.Int("j", 14, "parallel solver processes")
 	verbose := flag.Bool("v", false, "verbose")
 	dump := flag.String("dump", "", "write failing queries into this directory")
+	ssadump := flag.String("ssa", "", "print SSA of the named function and exit")
 	flag.Parse()
 	p, err := govc.Load(*dir, *spec)
 	if err != nil {
@@ -25,6 +26,19 @@ func main() {
 		os.Exit(2)
 	}
 	defer govc.Cleanup()
+	if *ssadump != "" {
+		fn := p.Funcs[*ssadump]
+		if fn == nil {
+			fmt.Println("unknown function; known:")
+			for _, n := range p.FuncNames() {
+				fmt.Println("  ", n)
+			}
+			os.Exit(2)
+		}
+		fn.WriteTo(os.Stdout)
+		govc.PrintLoops(fn)
+		return
+	}
 	var names []string
 	if *fnFlag != "" {
 		names = strings.Split(*fnFlag, ",")
